@@ -770,6 +770,60 @@ fn main() {
             }
         },
     );
+    // narrow integers: the per-axis forms against the whole-array routine on the lane, where the
+    // documented left-to-right sum stays in range but other groupings of the same terms would not
+    rep.run_sub(
+        "narrow-integer-axis-forms",
+        "all lanes of length 4 over {-100, 0, 27, 100} as i8 (and {0, 27, 100, 200} as u8), as the columns / rows of a 4x2 / 2x4 array next to a fixed second lane, unit weights and weights [1, 1, 0, 1]: wherever weighted_sum / weighted_mean of the lane return (in a build with overflow checks: do not panic), weighted_sum_axis / weighted_mean_axis must return the same value for that lane",
+        sequences(4, 4).flat_map(|d| (0..4u8).map(move |v| (d.clone(), v))),
+        |(digits, variant), lx| {
+            lx.nontrivial(true);
+            let axis = (*variant % 2) as usize;
+            let wsel = *variant / 2;
+            lx.single(|lx| {
+                let mut obs = Vec::new();
+                macro_rules! go {
+                    ($t:ty, $tab:expr, $second:expr) => {{
+                        let lane: Vec<$t> = digits.iter().map(|&d| $tab[d as usize]).collect();
+                        let second: Vec<$t> = $second.to_vec();
+                        let w: Vec<$t> = if wsel == 0 { vec![1, 1, 1, 1] } else { vec![1, 1, 0, 1] };
+                        // lanes run along `axis`: shape (4,2) for axis 0, (2,4) for axis 1
+                        let arr: Array2<$t> = if axis == 0 { Array2::from_shape_fn((4, 2), |(i, j)| if j == 0 { lane[i] } else { second[i] }) } else { Array2::from_shape_fn((2, 4), |(j, i)| if j == 0 { lane[i] } else { second[i] }) };
+                        let wa = Array1::from(w.clone());
+                        // the axis form is only asked not to panic when the whole-array routine returns on every lane
+                        let all_return = [&lane, &second].iter().all(|l| {
+                            let la = Array1::from((*l).clone());
+                            guarded(|| (la.weighted_sum(&wa), la.weighted_mean(&wa))).is_ok()
+                        });
+                        for (j, l) in [&lane, &second].iter().enumerate() {
+                            if !all_return {
+                                lx.skip("narrow integers: the whole-array routine overflows on a lane of this array (outside the domain)");
+                                break;
+                            }
+                            let la = Array1::from((*l).clone());
+                            let whole = guarded(|| (la.weighted_sum(&wa), la.weighted_mean(&wa)));
+                            let axisr = guarded(|| (arr.weighted_sum_axis(Axis(axis), &wa), arr.weighted_mean_axis(Axis(axis), &wa)));
+                            match (whole, axisr) {
+                                (Err(_), _) => lx.skip("narrow integers: the whole-array routine overflows on this lane (outside the domain)"),
+                                (Ok((Ok(s), m)), Ok((Ok(sa), ma))) => {
+                                    lx.check(sa.len() == 2 && sa[j] == s, "C06/int-weighted-sum-axis", || format!("[{}] weighted_sum_axis({}) lane {} = {:?} but weighted_sum of the lane {:?} with {:?} = {}", stringify!($t), axis, j, sa, l, w, s));
+                                    if let (Ok(m), Ok(ma)) = (m, ma) {
+                                        lx.check(ma.len() == 2 && ma[j] == m, "C06/int-weighted-mean-axis", || format!("[{}] weighted_mean_axis({}) lane {} = {:?} but weighted_mean of the lane {:?} with {:?} = {}", stringify!($t), axis, j, ma, l, w, m));
+                                    }
+                                    obs.push(s as i64);
+                                }
+                                (Ok(_), Err(msg)) => lx.fail("C06/int-weighted-sum-axis", || format!("[{}] the axis form panicked ({}) although weighted_sum of every lane returns: lanes {:?} / {:?}, weights {:?}, axis {}", stringify!($t), msg, lane, second, w, axis)),
+                                (Ok(a), Ok(b)) => lx.fail("C06/axis-failed", || format!("[{}] unexpected errors {:?} / {:?}", stringify!($t), a.0.is_ok(), b.0.is_ok())),
+                            }
+                        }
+                    }};
+                }
+                go!(i8, [-100i8, 0, 27, 100], [3i8, -4, 5, 1]);
+                go!(u8, [0u8, 27, 100, 200], [3u8, 4, 5, 1]);
+                hash_of(&obs)
+            });
+        },
+    );
     // operands that alias each other
     let acases = (3..=5usize)
         .flat_map(|m| sequences(m, 4).flat_map(move |d| (0..3u8).map(move |kind| AliasCase { digits: d.clone(), kind })))
